@@ -50,10 +50,12 @@ CLAIMED = {
             'Theorems over the whole parse model (tokenizers, unknown merge, WITH grouping, strict checks, boolean parser). '
             'The position clause (error_located) is decided by the oracle on the implementation, not by a theorem.',
             'A single dangling operator at the end is outside the claim.', 'DESIGN.md section 4 C03'),
-    'C12': ('Coq proof (strict accepts iff non-strict accepts and roles are right, equal results; otherwise error 101/102 at the '
-            'first offending license) + exhaustive token strings against all four flag assignments',
-            'Theorems parse_strict_iff / parse_strict_error over the parse model for every table and string; flag independence '
-            'of non-strict parsing is decided by the oracle (four flag assignments of the table), not by a theorem.',
+    'C12': ('Coq proof, full statement on the model: strict accepts iff non-strict accepts and roles are right, equal results; otherwise '
+            'error 101/102 at the first offending license; non-strict parse() of two tables with the same keys and aliases gives the '
+            'same outcome up to the flags of the symbols + exhaustive token strings against all four flag assignments',
+            'Theorems parse_strict_iff / parse_strict_error / parse_flag_free over the parse model for every table and string; the '
+            'last one by parametricity of matcher, overlap filter, piece walk, unknown-run merger, WITH grouping, replacement and '
+            'boolean parser in the values they carry (Proofs/Flags.v).',
             '', 'DESIGN.md section 4 C12'),
     'C16': ('Coq proof (matcher as a map under add / re-add; finalisation changes no look-up and refuses additions; Aho-Corasick '
             'correctness: iter reports exactly the occurrences of stored word sequences in the word pieces of the text, with '
